@@ -806,34 +806,35 @@ fn observe(w: &World) -> (String, Vec<Option<(usize, usize, usize, bool)>>) {
 
 /// judge the state after one top-level operation; first failure wins
 fn judge(w: &World, k: usize, op: &Stmt, snaps: &[Option<(usize, usize, usize, bool)>], tracked_prev: &[Vec<usize>],
-         vals_prev: &[Option<i64>], dirty_prev: &[bool], flags: &mut BTreeSet<&'static str>) -> Option<String> {
+         vals_prev: &[Option<i64>], dirty_prev: &[bool], flags: &mut BTreeSet<&'static str>) -> Vec<String> {
+    let mut fails: Vec<String> = vec![];
     let sh = w.sh.borrow();
     let n = snaps.len();
     if let Some(f) = &sh.ctx_fail {
-        return Some(f.clone());
+        fails.push(f.clone());
     }
     // --- C04: ownership / liveness bookkeeping
     let live = snaps.iter().filter(|s| s.is_some()).count();
     if verif::node_count() != live {
-        return Some(format!("[node-count] op {k}: {} live nodes in the arena but {} of the created handles are alive", verif::node_count(), live));
+        fails.push(format!("[node-count] op {k}: {} live nodes in the arena but {} of the created handles are alive", verif::node_count(), live));
     }
     for i in 0..n {
         let alive = snaps[i].is_some();
         if alive && sh.killed[i] {
-            return Some(format!("[leak] op {k}: node {i} is still alive although it (or its owner) was disposed or its owner re-ran"));
+            fails.push(format!("[leak] op {k}: node {i} is still alive although it (or its owner) was disposed or its owner re-ran"));
         }
         if !alive && !sh.killed[i] {
-            return Some(format!("[freed-early] op {k}: node {i} is dead although neither it nor an owner was disposed or re-ran"));
+            fails.push(format!("[freed-early] op {k}: node {i} is dead although neither it nor an owner was disposed or re-ran"));
         }
     }
     for (tag, (owner, ran)) in sh.cleanups.iter().enumerate() {
         let due = sh.killed[*owner] || false;
         // a cleanup is also due when its owner re-ran after the registration: covered by `ran` bookkeeping below
         if *ran > 1 {
-            return Some(format!("[cleanup-twice] op {k}: cleanup {tag} (registered in node {owner}) ran {ran} times"));
+            fails.push(format!("[cleanup-twice] op {k}: cleanup {tag} (registered in node {owner}) ran {ran} times"));
         }
         if due && *ran == 0 {
-            return Some(format!("[cleanup-missing] op {k}: cleanup {tag} of destroyed node {owner} never ran"));
+            fails.push(format!("[cleanup-missing] op {k}: cleanup {tag} of destroyed node {owner} never ran"));
         }
     }
     // --- C04 / C03: subscriber lists and dependency lists against the harness' record of tracked reads
@@ -843,7 +844,7 @@ fn judge(w: &World, k: usize, op: &Stmt, snaps: &[Option<(usize, usize, usize, b
             if is_comp {
                 let expect = sh.tracked[i].iter().filter(|d| snaps[**d].is_some()).count();
                 if deps != expect {
-                    return Some(format!("[edges] op {k}: node {i} has {deps} dependencies but its latest run tracked {expect} live reads {:?}", sh.tracked[i]));
+                    fails.push(format!("[edges] op {k}: node {i} has {deps} dependencies but its latest run tracked {expect} live reads {:?}", sh.tracked[i]));
                 }
             }
             let subs: usize = (0..n)
@@ -852,7 +853,7 @@ fn judge(w: &World, k: usize, op: &Stmt, snaps: &[Option<(usize, usize, usize, b
                 .sum();
             if dents != subs {
                 flags.insert("stale-subscribers");
-                return Some(format!("[stale-subscribers] op {k}: node {i} has {dents} subscriber entries but {subs} tracked reads by live computations"));
+                fails.push(format!("[stale-subscribers] op {k}: node {i} has {dents} subscriber entries but {subs} tracked reads by live computations"));
             }
         }
     }
@@ -876,7 +877,7 @@ fn judge(w: &World, k: usize, op: &Stmt, snaps: &[Option<(usize, usize, usize, b
     // C10: nothing runs inside a batch
     if let Some(x) = sh.ran_inside_batch.first() {
         if !created_this_op(*x) {
-            return Some(format!("[ran-inside-batch] op {k}: computation {x} ran before the outermost batch ended"));
+            fails.push(format!("[ran-inside-batch] op {k}: computation {x} ran before the outermost batch ended"));
         }
     }
     let program_effect_writes = sh.effect_wrote;
@@ -885,7 +886,7 @@ fn judge(w: &World, k: usize, op: &Stmt, snaps: &[Option<(usize, usize, usize, b
         ran.sort();
         for p in ran.windows(2) {
             if p[0] == p[1] && !created_this_op(p[0]) {
-                return Some(format!("[double-run] op {k}: computation {} ran more than once", p[0]));
+                fails.push(format!("[double-run] op {k}: computation {} ran more than once", p[0]));
             }
         }
     }
@@ -913,11 +914,11 @@ fn judge(w: &World, k: usize, op: &Stmt, snaps: &[Option<(usize, usize, usize, b
             let must_run = tracked_prev[i].iter().any(|d| snaps[*d].is_some() && changed(*d));
             let did_run = first_pos(i).is_some();
             if did_run && !subscribed && !dirty_prev.get(i).copied().unwrap_or(false) {
-                return Some(format!("[unjustified-run] op {k}: computation {i} re-ran although nothing it tracked in its previous run ({:?}) was written, re-ran or changed", tracked_prev[i]));
+                fails.push(format!("[unjustified-run] op {k}: computation {i} re-ran although nothing it tracked in its previous run ({:?}) was written, re-ran or changed", tracked_prev[i]));
             }
             if !did_run && must_run && snaps[i].is_some() && !sh.killed[i] {
                 // a subscriber that was destroyed and re-created counts as new; a live one must have run
-                return Some(format!("[missed-run] op {k}: computation {i} tracked {:?} in its previous run, one of them changed, but it did not re-run", tracked_prev[i]));
+                fails.push(format!("[missed-run] op {k}: computation {i} tracked {:?} in its previous run, one of them changed, but it did not re-run", tracked_prev[i]));
             }
         }
     }
@@ -967,9 +968,9 @@ fn judge(w: &World, k: usize, op: &Stmt, snaps: &[Option<(usize, usize, usize, b
             let have = stored_value(w, i);
             if let (Some(want), Some(have)) = (want, have) {
                 if want != have {
-                    let cls = if late_edge(i) || dirty_prev.get(i).copied().unwrap_or(false) || snaps[i].map(|s| s.3).unwrap_or(false) && (0..n).any(|m| late_edge(m)) { "late-edge" } else { "stale-value" };
+                    let cls = if late_edge(i) || snaps[i].map(|s| s.3).unwrap_or(false) && (0..n).any(|m| late_edge(m)) { "late-edge" } else { "stale-value" };
                     flags.insert(if cls == "late-edge" { "late-edge" } else { "stale-value" });
-                    return Some(format!("[{cls}] op {k}: computation {i} holds {have} but its function yields {want} from the current values"));
+                    fails.push(format!("[{cls}] op {k}: computation {i} holds {have} but its function yields {want} from the current values"));
                 }
             }
         }
@@ -990,7 +991,7 @@ fn judge(w: &World, k: usize, op: &Stmt, snaps: &[Option<(usize, usize, usize, b
                             let newly = !tracked_prev.get(*reader).map(|t| t.contains(d)).unwrap_or(false);
                             let cls = if later && newly { "late-edge" } else { "glitch" };
                             flags.insert(if cls == "late-edge" { "late-edge" } else { "glitch" });
-                            return Some(format!("[{cls}] op {k}: computation {reader} read {v} from computation {d}, whose consistent value in this propagation is {want}"));
+                            fails.push(format!("[{cls}] op {k}: computation {reader} read {v} from computation {d}, whose consistent value in this propagation is {want}"));
                         }
                     }
                 }
@@ -1000,18 +1001,28 @@ fn judge(w: &World, k: usize, op: &Stmt, snaps: &[Option<(usize, usize, usize, b
     // dirty at rest
     for i in 0..n {
         if let Some((_, _, _, true)) = snaps[i] {
-            let cls = if (0..n).any(|m| late_edge(m)) || dirty_prev.get(i).copied().unwrap_or(false) { "late-edge" } else { "dirty-at-rest" };
+            let cls = if (0..n).any(|m| late_edge(m)) { "late-edge" } else { "dirty-at-rest" };
             flags.insert(if cls == "late-edge" { "late-edge" } else { "dirty-at-rest" });
-            return Some(format!("[{cls}] op {k}: computation {i} is left dirty after the operation returned"));
+            fails.push(format!("[{cls}] op {k}: computation {i} is left dirty after the operation returned"));
         }
     }
-    None
+    fails
 }
 
 pub fn run_case(ops: &[Stmt]) -> CaseResult {
     let root = fresh_root();
     let mut out: Vec<String> = vec![];
-    let mut verdict: Option<String> = None;
+    // failures of this case: the first of each oracle class (at most 4), in order of appearance; judging
+    // stops after a failure of the known class `late-edge` (what follows a stale node is unpredictable)
+    let mut verdicts: Vec<String> = vec![];
+    fn class_of(v: &str) -> &str {
+        v.split(']').next().unwrap_or("")
+    }
+    fn add(verdicts: &mut Vec<String>, v: String) {
+        if verdicts.len() < 8 && !verdicts.iter().any(|x| class_of(x) == class_of(&v)) {
+            verdicts.push(v);
+        }
+    }
     let mut flags = BTreeSet::new();
     root.run_in(|| {
         let w = World::new();
@@ -1039,10 +1050,10 @@ pub fn run_case(ops: &[Stmt]) -> CaseResult {
                     out.push(format!("{k}:panic={cls}"));
                     let expected = w.sh.borrow().expected_panic;
                     if cls == "harness" {
-                        verdict.get_or_insert(format!("[harness-bug] {m}"));
+                        add(&mut verdicts, format!("[harness-bug] {m}"));
                     } else if expected != Some(cls) {
                         flags.insert("unexpected-panic");
-                        verdict.get_or_insert(format!("[unexpected-panic] op {k} `{}` panicked: {m}", show(op)));
+                        add(&mut verdicts, format!("[unexpected-panic] op {k} `{}` panicked: {m}", show(op)));
                     } else {
                         flags.insert("documented-panic");
                     }
@@ -1051,8 +1062,17 @@ pub fn run_case(ops: &[Stmt]) -> CaseResult {
                 Ok(()) => {
                     let (state, snaps) = observe(&w);
                     out.push(format!("{k}:t=[{}] {state}", w.trace.borrow().join(" ")));
-                    if verdict.is_none() {
-                        verdict = judge(&w, k, op, &snaps, &tracked_prev, &vals_prev, &dirty_prev, &mut flags);
+                    if verdicts.len() < 8 && !verdicts.iter().any(|v| class_of(v) == "[late-edge") {
+                        let vs = judge(&w, k, op, &snaps, &tracked_prev, &vals_prev, &dirty_prev, &mut flags);
+                        // within one operation, staleness downstream of a late edge (a computation that read the
+                        // stale node, or holds a value computed from it) is a consequence of the late edge
+                        let late = vs.iter().any(|v| class_of(v) == "[late-edge");
+                        for v in vs {
+                            if late && matches!(class_of(&v), "[stale-value" | "[glitch" | "[dirty-at-rest") {
+                                continue;
+                            }
+                            add(&mut verdicts, v);
+                        }
                     }
                     vals_prev = (0..snaps.len()).map(|i| stored_value(&w, i)).collect();
                     dirty_prev = snaps.iter().map(|s| s.map(|s| s.3).unwrap_or(false)).collect();
@@ -1067,6 +1087,7 @@ pub fn run_case(ops: &[Stmt]) -> CaseResult {
             }
         }
     });
+    let verdict = if verdicts.is_empty() { None } else { Some(verdicts.join(" ;; ")) };
     CaseResult { obs: out.join(" | "), verdict, flags }
 }
 
